@@ -16,8 +16,9 @@ RULE = ("A generated prior history (fit, partial_fit, add/remove arm, warm_start
         "is tracked as an event).")
 ASSUMPTIONS = [
     "the fresh twin is built through MAB's public constructor from the public properties of the old bandit",
-    "linear arm models hold private generator copies whose aliasing depends on which arms were ever trained; when "
-    "the alias structure of the two bandits differs both are normalised identically (vlib/streams.py)",
+    "stream positions are copied path by path; when the generator alias structure of the two bandits differs "
+    "before fit(D) (linear arm models hold private generator copies) an aliased group takes the position of its "
+    "first path - after fit(D) both bandits must have the same structure, nothing is normalised",
 ]
 NT_FLOOR = 0.2
 
@@ -59,7 +60,7 @@ def evaluate(plan, ctx):
         f = fresh_from(b)
     except Exception as e:
         raise Violation("rebuild", "constructing a fresh bandit from the public properties raised %r" % (e,))
-    mode = streams.align(b, f)
+    mode = streams.align(b, f, normalise=False)
     twin.run_both(b, f, [plan["refit"]], "refit_vs_fresh", "re-fitted bandit", "fresh bandit")
     twin.run_both(b, f, plan["cont"], "refit_vs_fresh", "re-fitted bandit", "fresh bandit", start=1)
     kinds = [op[0] for op in plan["prior"]]
